@@ -316,7 +316,7 @@ try {
     script_lines = (char**)malloc(sizeof(char*) * count);
 
     int i = 0;
-    char buf[1024];
+    char buf[16 + 2 * MAX_SCRIPT_ELEMENT_SIZE]; // "#NNNN " and the hex of the largest push
     if (env->sigversion == SigVersion::TAPSCRIPT) {
         for (const auto& s : tc_desc) {
             script_lines[i++] = strdup(strprintf("#%04d %s", i, s).c_str());
@@ -329,11 +329,11 @@ try {
         it = script->begin();
         while (script->GetOp(it, opcode, vchPushValue)) {
             char* pbuf = buf;
-            pbuf += snprintf(pbuf, 1024, "#%04d ", i);
+            pbuf += snprintf(pbuf, sizeof(buf), "#%04d ", i);
             if (vchPushValue.size() > 0) {
-                snprintf(pbuf, 1024 - (pbuf - buf), "%s", HexStr(std::vector<uint8_t>(vchPushValue.begin(), vchPushValue.end())).c_str());
+                snprintf(pbuf, sizeof(buf) - (pbuf - buf), "%s", HexStr(std::vector<uint8_t>(vchPushValue.begin(), vchPushValue.end())).c_str());
             } else {
-                snprintf(pbuf, 1024 - (pbuf - buf), "%s", GetOpName(opcode).c_str());
+                snprintf(pbuf, sizeof(buf) - (pbuf - buf), "%s", GetOpName(opcode).c_str());
             }
             script_lines[i++] = strdup(buf);
         }
